@@ -745,6 +745,17 @@ def dyn_key(ty):
     return k.strip()
 
 
+def fnptr_key(ty):
+    """Normalised text of a fn-pointer type (binders, lifetimes and the `{fn item}` suffix removed), or None."""
+    if not ty:
+        return None
+    k = re.sub(r"\s*\{[^{}]*\}\s*$", "", ty.strip())
+    k = re.sub(r"for<[^>]*>\s*", "", k)
+    k = re.sub(r"'[a-z_0-9{}]+\s*", "", k)
+    k = re.sub(r"\s+", " ", k).strip()
+    return k if re.match(r"(unsafe )?(extern \"[^\"]*\" )?fn\(", k) else None
+
+
 class CallGraph:
     """Whole-program call graph over local bodies, kept per call site.
 
@@ -754,7 +765,9 @@ class CallGraph:
                 recorded on the callee)          'fnref'   fn item mentioned as a value
       'dyn:<key>' call through `dyn Fn*/Future` resolved to the bodies coerced to that object type
       'trait'   virtual call of a trait method resolved to every local impl
-      'indirect' unresolved (fn pointer): any address-taken body
+      'fnptr:<type>' call through a fn pointer resolved to the fn items / closures that are coerced to a pointer of
+                that exact type somewhere in the program (ReifyFnPointer / ClosureFnPointer casts)
+      'indirect' unresolved (fn pointer of a type nothing local is coerced to): any address-taken body
     """
 
     def __init__(self, prog):
@@ -763,6 +776,7 @@ class CallGraph:
         self.ext = {k: [] for k in prog.bodies}       # external callee paths per body: (path, bb)
         self.addr_taken = set()
         self.dyn_impls = {}
+        self.fnptr_impls = {}
         self.garg_fns = {}
         generic_casts = []
         dyn_sites = []
@@ -779,6 +793,10 @@ class CallGraph:
                         ck = strip_generics(rv["def"])
                         if ck in prog.bodies:
                             self.site_edges[k].append((i, ck, "closure"))
+                    if rv["k"] == "cast" and "FnPointer" in rv.get("cast", ""):
+                        fk_ = fnptr_key(rv.get("ty"))
+                        if fk_:
+                            self.fnptr_impls.setdefault(fk_, set()).update(x for x in (strip_generics(y) for y in rv.get("src_fns", [])) if x in prog.bodies)
                     if rv["k"] == "cast" and "Unsize" in rv.get("cast", ""):
                         dk = dyn_key(rv.get("ty"))
                         if dk:
@@ -809,7 +827,7 @@ class CallGraph:
                         self.ext[k].append((ps[0], i))
                     dec = strip_generics(t.get("callee", ""))
                     if "indirect" in t:
-                        dyn_sites.append((k, i, "indirect", None))
+                        dyn_sites.append((k, i, "indirect", fnptr_key(t.get("indirect"))))
                     elif t.get("rkind") == "virtual" or ("resolved" not in t and re.search(r"ops::function::Fn(Mut|Once)?::call", dec)
                                                          and dyn_key((t.get("arg_tys") or [""])[0])):
                         if re.search(r"ops::function::Fn(Mut|Once)?::call|future::future::Future::poll", dec):
@@ -844,7 +862,10 @@ class CallGraph:
             self.dyn_impls.setdefault(dk, set()).update(self.garg_fns.get(gk, ()))
         for (k, i, kind, dk) in dyn_sites:
             cands = self.dyn_impls.get(dk) if (kind == "dyn" and dk) else None
-            if cands:
+            if kind == "indirect" and dk and self.fnptr_impls.get(dk):
+                for c in sorted(self.fnptr_impls[dk]):
+                    self.site_edges[k].append((i, c, "fnptr:" + dk))
+            elif cands:
                 for c in sorted(cands):
                     self.site_edges[k].append((i, c, "dyn:" + dk))
             else:
@@ -1321,6 +1342,12 @@ class FA:
                     e2 = dict(env)
                     if val is not None:
                         e2[p["l"]] = ("b", val)
+                        # every other local that still holds the same call's result (the named `let found = f();` the
+                        # switched temporary was copied from, or its negation) is decided by this arm too
+                        truth = val != v[2]
+                        for l2, v2 in list(e2.items()):
+                            if l2 != p["l"] and v2[0] == "call" and v2[1] == v[1]:
+                                e2[l2] = ("b", truth != v2[2])
                     out.append((x, self._freeze(e2)))
                 return out
             elif v is not None and v[0] == "disc" and t.get("enum_variants"):
